@@ -285,6 +285,36 @@ def _run_case(case):
             C["closed_form_comparisons"] += 1
             if abs(x - cf) > 1e-9 * max(1.0, abs(cf)):
                 V.append(tt.viol("C09:single-epoch:%s" % feat, "single-epoch skyline %.14g differs from the constant-rate closed form %.14g" % (x, cf), **detail))
+        if d["m"] == 1 and d["rho_h"] is None and d["r"] is None and not V:
+            # the same two densities with a sample dimension: two rows with different rates, each against the closed form
+            import torch
+            from torchtree.evolution.bdsk import PiecewiseConstantBirthDeath
+            from torchtree.evolution.birth_death import BirthDeath
+
+            lam, mu, psi = rates(d)
+            rows = [(lam[0], mu[0], psi[0], d["rho"][0], d["origin"])]
+            rows.append((lam[0] * float(rng.uniform(0.6, 1.5)), mu[0] * float(rng.uniform(0.6, 1.5)), psi[0] * float(rng.uniform(0.6, 1.5)),
+                         min(0.99, d["rho"][0] * float(rng.uniform(0.6, 1.4))), d["origin"] + float(rng.uniform(0.0, 1.0))))
+            T = lambda v: torch.tensor(v, dtype=torch.float64)
+            col = lambda k: T([[r[k]] for r in rows])
+            heights = T(d["tip_heights"] + sorted(d["internal"]))
+            refs = [bd.single_epoch_log_density(d["tip_heights"], d["internal"], r[4], r[0], r[1], r[2], r[3], None, surv) for r in rows]
+            for cname, make in (("skyline", lambda: PiecewiseConstantBirthDeath(col(0), col(1), col(2), rho=col(3), origin=col(4), survival=surv)),
+                                ("constant", lambda: BirthDeath(col(0), col(1), col(2), col(3), col(4), survival=surv))):
+                if cname == "constant" and (all(t == 0 for t in d["tip_heights"]) and d["rho"][0] == 0):
+                    continue
+                try:
+                    out = tt.as_np(make().log_prob(heights), "C09:not-a-tensor").reshape(-1)
+                except Exception as e:
+                    from ..worker import _blame
+
+                    if _blame(e) is None:
+                        raise
+                    C["batched_declined"] = C.get("batched_declined", 0) + 1
+                    continue
+                C["batched_rows"] = C.get("batched_rows", 0) + 2
+                if out.shape[0] != 2 or any(abs(out[i] - refs[i]) > 1e-8 * max(1.0, abs(refs[i])) for i in range(2)):
+                    V.append(tt.viol("C09:batched:%s:%s" % (cname, feat), "%s density with two parameter rows gives %s, the closed form %s" % (cname, out.tolist(), refs), **detail))
     elif case["sub"] == "refine":
         base = lib_value()
         # split one epoch into two sub-epochs with identical rates and rho = 0 at the new boundary
